@@ -37,7 +37,7 @@ Inductive item := CI (cl : column) | RI (ts : list tok).   (* what a section or 
 Inductive section := Cols (l : list item) | Groups (gs : list (list item)).
 Definition sect := (bool * section)%type.               (* true = background-url: the section is wrapped in a VML rectangle for Outlook *)
 Inductive witem := WS (s : sect) | WR (ts : list tok).     (* what a wrapper holds: sections and mj-raw *)
-Inductive block := Plain (s : sect) | FullWidth (s : sect) | Wrap (ws : list witem) | Hero (ks : list leaf) | Raw (ts : list tok).
+Inductive block := Plain (s : sect) | FullWidth (s : sect) | Wrap (ws : list witem) | FullWrap (ws : list witem) | Hero (ks : list leaf) | Raw (ts : list tok).
 Definition body := list block.
 
 (* a segment of output: plain markup, the inside of one <!--[if mso | IE]> ... <![endif]--> (Outlook only),
@@ -172,7 +172,7 @@ Definition wrap_segs (ss : list witem) : list seg :=
 Definition close3 : seg := M [c "td"; c "tr"; c "table"].
 Definition open_seg (pend : bool) : seg :=
   if pend then M [c "td"; c "tr"; c "table"; o "table"; o "tr"; o "td"] else M [o "table"; o "tr"; o "td"].
-Definition continues (b : block) : bool := match b with Plain _ | Wrap _ => true | FullWidth _ | Hero _ | Raw _ => false end.
+Definition continues (b : block) : bool := match b with Plain _ | Wrap _ => true | FullWidth _ | FullWrap _ | Hero _ | Raw _ => false end.
 (* full-width: the VML rectangle encloses the Outlook table, not the other way round *)
 Definition fw_segs (s : sect) : list seg :=
   if fst s
@@ -180,6 +180,8 @@ Definition fw_segs (s : sect) : list seg :=
        [P [c "div"]; close3; vml_close; P [c "td"; c "tr"; c "tbody"; c "table"]]
   else P [o "table"; o "tbody"; o "tr"; o "td"] :: M [o "table"; o "tr"; o "td"] :: sec_segs (snd s) ++
        [close3; P [c "td"; c "tr"; c "tbody"; c "table"]].
+Definition fwrap_segs (ws : list witem) : list seg :=
+  P [o "table"; o "tbody"; o "tr"; o "td"] :: M [o "table"; o "tr"; o "td"] :: wrap_segs ws ++ [close3; P [c "td"; c "tr"; c "tbody"; c "table"]].
 Definition hero_segs (ks : list leaf) : list seg :=
   M [o "table"; o "tr"; o "td"; TOpen (lit "v:image") [] true] :: P [o "div"; o "table"; o "tbody"; o "tr"; o "td"] ::
   M [o "table"; o "tr"; o "td"] :: P [o "div"; o "table"; o "tbody"; o "tr"; o "td"; o "table"; o "tbody"] :: flat_map row_segs ks ++
@@ -195,6 +197,7 @@ Fixpoint blocks_segs (pend : bool) (bs : list block) : list seg :=
        end)
   | Wrap ss :: r => open_seg pend :: wrap_segs ss ++ close3 :: blocks_segs false r
   | FullWidth s :: r => (if pend then [close3] else []) ++ fw_segs s ++ blocks_segs false r
+  | FullWrap ws :: r => (if pend then [close3] else []) ++ fwrap_segs ws ++ blocks_segs false r
   | Hero ks :: r => (if pend then [close3] else []) ++ hero_segs ks ++ blocks_segs false r
   | Raw ts :: r => (if pend then [close3] else []) ++ raw_seg ts :: blocks_segs false r
   end.
@@ -342,6 +345,8 @@ Proof.
 Qed.
 Lemma fw_plain s : forallb seg_plain (fw_segs s) = true.
 Proof. destruct s as [bg s]. unfold fw_segs. destruct bg; cbn [fst snd forallb]; rewrite forallb_app, sec_plain; reflexivity. Qed.
+Lemma fwrap_plain ws : forallb seg_plain (fwrap_segs ws) = true.
+Proof. unfold fwrap_segs. cbn [forallb]. rewrite forallb_app, wrap_plain. reflexivity. Qed.
 Lemma hero_plain ks : forallb seg_plain (hero_segs ks) = true.
 Proof. unfold hero_segs. cbn [forallb]. rewrite forallb_app, (forallb_flat_map row_segs seg_plain ks row_plain). reflexivity. Qed.
 Lemma blocks_plain : forall bs pend, forallb seg_plain (blocks_segs pend bs) = true.
@@ -349,11 +354,12 @@ Proof.
   induction bs as [|b r IH]; intros pend; [destruct pend; reflexivity|].
   assert (E : forallb seg_plain (if pend then [close3] else []) = true) by (destruct pend; reflexivity).
   assert (O : seg_plain (open_seg pend) = true) by (destruct pend; reflexivity).
-  destruct b as [s|s|ss|ks|ts]; cbn [blocks_segs].
+  destruct b as [s|s|ss|ss|ks|ts]; cbn [blocks_segs].
   - cbn [forallb]. rewrite forallb_app, sect_plain, O.
     destruct r as [|b' r']; [reflexivity|]. destruct (continues b' && negb (fst s)); [apply IH|]. cbn [forallb]. now rewrite IH.
   - rewrite !forallb_app, E, fw_plain, IH. reflexivity.
   - cbn [forallb]. rewrite forallb_app, wrap_plain, O. cbn [forallb]. now rewrite IH.
+  - rewrite !forallb_app, E, fwrap_plain, IH. reflexivity.
   - rewrite !forallb_app, E, hero_plain, IH. reflexivity.
   - rewrite forallb_app, E. cbn [forallb]. now rewrite raw_seg_plain, IH.
 Qed.
@@ -712,6 +718,18 @@ Proof.
     change (events Mso [close3; P [c "td"; c "tr"; c "tbody"; c "table"]]) with [ec "td"; ec "tr"; ec "table"; ec "td"; ec "tr"; ec "tbody"; ec "table"].
     cbn [app]. intros st. rewrite !run_eo, run_app, (sec_wb Mso s). cbn [app]. rewrite !run_ec. reflexivity.
 Qed.
+Lemma fwrap_wb v ws : wb (events v (fwrap_segs ws)).
+Proof.
+  unfold fwrap_segs. rewrite !events_cons, events_app. destruct v.
+  - change (seg_events Std (P [o "table"; o "tbody"; o "tr"; o "td"])) with [eo "table"; eo "tbody"; eo "tr"; eo "td"].
+    change (seg_events Std (M [o "table"; o "tr"; o "td"])) with (@nil ev).
+    change (events Std [close3; P [c "td"; c "tr"; c "tbody"; c "table"]]) with [ec "td"; ec "tr"; ec "tbody"; ec "table"].
+    cbn [app]. apply wrap4. apply wrap_wb.
+  - change (seg_events Mso (P [o "table"; o "tbody"; o "tr"; o "td"])) with [eo "table"; eo "tbody"; eo "tr"; eo "td"].
+    change (seg_events Mso (M [o "table"; o "tr"; o "td"])) with [eo "table"; eo "tr"; eo "td"].
+    change (events Mso [close3; P [c "td"; c "tr"; c "tbody"; c "table"]]) with [ec "td"; ec "tr"; ec "table"; ec "td"; ec "tr"; ec "tbody"; ec "table"].
+    cbn [app]. intros st. rewrite !run_eo, run_app, (wrap_wb Mso ws). cbn [app]. rewrite !run_ec. reflexivity.
+Qed.
 Lemma hero_wb v ks : wb (events v (hero_segs ks)).
 Proof.
   unfold hero_segs. rewrite !events_cons, events_app, events_flat_map.
@@ -738,7 +756,7 @@ Lemma blocks_std : forall bs pend, wb (events Std (blocks_segs pend bs)).
 Proof.
   induction bs as [|b r IH]; intros pend; [destruct pend; apply balanced_wb; reflexivity|].
   assert (E : events Std (if pend then [close3] else []) = []) by (destruct pend; reflexivity).
-  destruct b as [s|s|ss|ks|ts]; cbn [blocks_segs]; [| | | |rewrite events_app, E; cbn [app]; rewrite events_cons; intros st; rewrite raw_run; apply IH].
+  destruct b as [s|s|ss|ss|ks|ts]; cbn [blocks_segs]; [| | |rewrite !events_app, E; cbn [app]; apply wb_app; [apply fwrap_wb|apply IH]| |rewrite events_app, E; cbn [app]; rewrite events_cons; intros st; rewrite raw_run; apply IH].
   - rewrite events_cons, events_app. replace (seg_events Std (open_seg pend)) with (@nil ev) by (destruct pend; reflexivity).
     cbn [app]. apply wb_app; [apply sect_wb|]. destruct r as [|b' r']; [apply balanced_wb; reflexivity|].
     destruct (continues b' && negb (fst s)); [apply IH|]. rewrite events_cons. change (seg_events Std close3) with (@nil ev). apply IH.
@@ -764,7 +782,7 @@ Lemma blocks_mso : forall bs pend st, run (pstack pend st) (events Mso (blocks_s
 Proof.
   induction bs as [|b r IH]; intros pend st.
   - apply run_pend.
-  - destruct b as [s|s|ss|ks|ts]; cbn [blocks_segs]; [| | | |rewrite events_app, run_app, run_pend, events_cons, raw_run; apply (IH false st)].
+  - destruct b as [s|s|ss|ss|ks|ts]; cbn [blocks_segs]; [| | |rewrite !events_app, run_app, run_pend, run_app, (fwrap_wb Mso ss); apply (IH false st)| |rewrite events_app, run_app, run_pend, events_cons, raw_run; apply (IH false st)].
     + rewrite events_cons, events_app, run_open, run_app, (sect_wb Mso s).
       destruct r as [|b' r']; [change (events Mso [close3]) with [ec "td"; ec "tr"; ec "table"]; now rewrite !run_ec|].
       destruct (continues b' && negb (fst s)).
@@ -824,7 +842,7 @@ Definition witem_texts v (i : witem) := match i with WS s => sec_texts v (snd s)
 Definition block_texts v (b : block) :=
   match b with
   | Plain s | FullWidth s => sec_texts v (snd s)
-  | Wrap ws => flat_map (witem_texts v) ws
+  | Wrap ws | FullWrap ws => flat_map (witem_texts v) ws
   | Hero ks => flat_map (leaf_texts v) ks
   | Raw ts => raw_texts ts
   end.
@@ -1008,6 +1026,11 @@ Proof.
   - replace (texts (events v [close3; P [c "td"; c "tr"; c "tbody"; c "table"]])) with (@nil bytes) by (destruct v; reflexivity).
     now rewrite app_nil_r.
 Qed.
+Lemma fwrap_txt v ws : texts (events v (fwrap_segs ws)) = flat_map (witem_texts v) ws.
+Proof.
+  unfold fwrap_segs. rewrite !silent_txt by sil. rewrite events_app, texts_app, wrap_txt.
+  replace (texts (events v [close3; P [c "td"; c "tr"; c "tbody"; c "table"]])) with (@nil bytes) by (destruct v; reflexivity). now rewrite app_nil_r.
+Qed.
 Lemma hero_txt v ks : texts (events v (hero_segs ks)) = flat_map (leaf_texts v) ks.
 Proof.
   unfold hero_segs. rewrite !silent_txt by sil. rewrite events_app, texts_app, events_flat_map, rows_txt.
@@ -1020,13 +1043,14 @@ Lemma pend_txt v (pend : bool) : texts (events v (if pend then [close3] else [])
 Lemma blocks_txt v : forall bs pend, texts (events v (blocks_segs pend bs)) = body_texts v bs.
 Proof.
   induction bs as [|b r IH]; intros pend; [destruct pend, v; reflexivity|].
-  destruct b as [s|s|ss|ks|ts]; cbn [blocks_segs body_texts flat_map block_texts].
+  destruct b as [s|s|ss|ss|ks|ts]; cbn [blocks_segs body_texts flat_map block_texts].
   - rewrite silent_txt by apply open_silent. rewrite events_app, texts_app, sect_txt. f_equal.
     destruct r as [|b' r']; [destruct v; reflexivity|]. destruct (continues b' && negb (fst s)); [apply IH|].
     rewrite silent_txt by sil. apply IH.
   - rewrite !events_app, !texts_app, pend_txt, fw_txt. cbn [app]. f_equal. apply IH.
   - rewrite silent_txt by apply open_silent. rewrite events_app, texts_app, wrap_txt. f_equal.
     rewrite silent_txt by sil. apply IH.
+  - rewrite !events_app, !texts_app, pend_txt, fwrap_txt. cbn [app]. f_equal. apply IH.
   - rewrite !events_app, !texts_app, pend_txt, hero_txt. cbn [app]. f_equal. apply IH.
   - rewrite events_app, texts_app, pend_txt. cbn [app]. rewrite raw_txt. f_equal. apply IH.
 Qed.
